@@ -397,6 +397,14 @@ def eval_small(e, env):
                 return {'bool': bool, 'len': len, 'int': int, 'str': str, 'abs': abs}[e.func.id](v)
             except Exception:
                 return UNKNOWN
+        if isinstance(e, ast.Call) and isinstance(e.func, ast.Name) and e.func.id == 'range' and 1 <= len(e.args) <= 3 and not e.keywords:
+            vs = [eval_small(a, env) for a in e.args]
+            if any(v is UNKNOWN or not isinstance(v, int) or isinstance(v, bool) for v in vs):
+                return UNKNOWN
+            try:
+                return range(*vs)
+            except Exception:
+                return UNKNOWN
     d = dotted(e)
     if d is not None:
         if d in env:
